@@ -529,7 +529,7 @@ def network(profile="exact", max_ops=6, dtypes=("int8", "int8", "int8", "uint8",
             approx_tail = draw(st.sampled_from(["avgpool_same", "logistic", "tanh", "hswish", "lrelu", "mean", "resize_nearest", "avgpool_same", "tanh", "tconv", "tconv", "resize_bilinear"]))
         if profile == "exact16":  # exact-class operators whose 16-bit reference is pinned down (no ADD/SUB: their int16 reference depends on the pot_scale option)
             menu = ["conv", "conv", "conv", "dw", "fc", "maxpool", "avgpool_valid", "mul", "relu", "relu6", "reshape", "concat", "pad", "quantize", "sslice", "split",
-                    "maximum", "minimum", "mul_const", "padconv"]
+                    "maximum", "minimum", "mul_const", "padconv", "add", "sub", "add_const"]
         if profile == "residual":  # shape-preserving NPU and CPU operators over a pool of same-shaped tensors that are re-used again and again (several
             # Ethos-U operators exchanging tensors with CPU operators, tensors with consumers on both sides and late re-use)
             menu = ["add", "add", "mul", "sub", "custom", "custom", "rich_cpu", "relu", "add_const", "maximum", "dw_same"]
